@@ -38,6 +38,12 @@ func genC07(t *rapid.T) C07Case {
 		g.Prog.Main = append(g.Prog.Main, ragen.Line{K: ragen.KEntry, T: "u{{undefined-name}}v"})
 		lab["undefined-reference"] = true
 	}
+	// a definition whose value mentions a name nobody defines: the value is typed in place, the inner reference stays literal
+	if rapid.IntRange(0, 3).Draw(t, "undefinner") == 0 {
+		g.Prog.Main = append([]ragen.Line{{K: ragen.KDefine, Name: "holed", T: "x{{nodef-inner}}[0-9]"}}, g.Prog.Main...)
+		g.Prog.Main = append(g.Prog.Main, ragen.Line{K: ragen.KEntry, T: "k={{holed}}"})
+		lab["undefined-reference-inside-definition"] = true
+	}
 	// references inside included text are expanded with the including file's definitions
 	var defNames []string
 	for _, l := range g.Prog.Main {
@@ -117,6 +123,10 @@ func checkC07(c C07Case) Outcome {
 	out.Detail["out_permuted"], out.Detail["exit_permuted"] = p.Stdout, p.Exit
 	if p.Exit != a.Exit || p.Stdout != a.Stdout {
 		out.Violation = "generate differs after moving the definition lines to other positions"
+		return out
+	}
+	if hasLabel(c.Lab, "undefined-reference-inside-definition") && a.Exit == 0 && !strings.Contains(a.Stdout, `x\{\{nodef-inner\}\}`) {
+		out.Violation = "a reference to an undefined name inside a definition's value did not stay literal text"
 		return out
 	}
 	if hasLabel(c.Lab, "undefined-reference") && a.Exit == 0 && !strings.Contains(a.Stdout, `u\{\{undefined`) {
